@@ -59,11 +59,12 @@ func (m *TN93Model) Distance(seq1 []uint8, seq2 []uint8, weights []float64) (flo
 	}
 
 	dist = 2.*(m.pi[0]*m.pi[2]+m.pi[1]*m.pi[3])*(y*b1+(1-y)*b2) + 2*pir*piy*b3
-	if dist > 0 {
-		return dist, nil
-	} else {
+	// Negative values (and -0) are clamped to 0; an undefined (NaN)
+	// estimator of a saturated pair is returned as it is
+	if dist <= 0 {
 		return 0, nil
 	}
+	return dist, nil
 }
 
 func (m *TN93Model) InitModel(al align.Alignment, weights []float64, gamma bool, alpha float64) (err error) {
